@@ -1,6 +1,7 @@
 """C13: executes the cases enumerated by spec/MCToml.tla: writes the TOML text, calls
 Kind.from_file and the constructor with the same values, and reports outcomes and canonical
 digests of the two components (payload, params()/limits() rows, solved probe)."""
+import copy
 import os
 import tempfile
 import warnings
@@ -93,36 +94,48 @@ def run_case(st, cid, rng, tmpdir):
         if f != "absent":
             P[k] = value(k, f, rng)
     L = dict(LIMITS) if st["lim"] == "ok" else None
+    # LinReg: the deprecated spelling iq of the ground current (file and constructor call both use it)
+    if kind == "LinReg" and "ig" in P and isinstance(P["ig"], (int, float, dict)) and not isinstance(P["ig"], bool) and rng.random() < 0.3:
+        v = P.pop("ig")
+        if isinstance(v, dict):
+            v = {("iq" if kk == "ig" else kk): vv for kk, vv in v.items()}
+        P["iq"] = v
     text = "[%s]\n" % SECTION[kind] + "".join("%s = %s\n" % (k, toml_val(v)) for k, v in P.items() if not isinstance(v, dict))
     for k, v in P.items():
         if isinstance(v, dict):
             text += "[%s.%s]\n" % (SECTION[kind], k) + "".join("%s = %s\n" % (kk, toml_val(vv)) for kk, vv in v.items())
     if L is not None:
         text += "\n[limits]\n" + "".join("%s = %s\n" % (k, toml_val(v)) for k, v in L.items())
-    path = os.path.join(tmpdir, "c%d.toml" % cid)
+    # a small pool of paths, rewritten from case to case: what is loaded must be what the file holds now
+    path = os.path.join(tmpdir, "c%d.toml" % (cid % 2))
     with open(path, "w") as f:
         f.write(text)
     cls = getattr(C, kind)
-    case = {"id": cid, "kind": kind, "forms": forms, "lim": st["lim"], "ff": "ok", "ct": "ok",
-            "da": "", "db": "", "ra": "", "rb": "", "pa": "", "pb": "", "toml": text}
-    a = b = None
+    case = {"id": cid, "kind": kind, "forms": forms, "lim": st["lim"], "ff": "ok", "ct": "ok", "ff2": "ok",
+            "da": "", "db": "", "da2": "", "ra": "", "rb": "", "pa": "", "pb": "", "toml": text}
+    a = a2 = b = None
     with warnings.catch_warnings():
         warnings.simplefilter("ignore")
         try:
             a = cls.from_file("X", fname=path)
         except Exception as e:
             case["ff"] = type(e).__name__
+        try:      # loading the same file again gives the same component
+            a2 = cls.from_file("X", fname=path)
+        except Exception as e:
+            case["ff2"] = type(e).__name__
         try:
-            kw = dict(P)
+            kw = copy.deepcopy(P)
             if L is not None:
-                kw["limits"] = L
+                kw["limits"] = dict(L)
             b = cls("X", **kw)
         except Exception as e:
             case["ct"] = type(e).__name__
-    os.unlink(path)
     if a is not None:
         case["da"] = digest(comp_pay(a))
         case["ra"], case["pa"] = probe(a, kind)
+    if a2 is not None:
+        case["da2"] = digest(comp_pay(a2))
     if b is not None:
         case["db"] = digest(comp_pay(b))
         case["rb"], case["pb"] = probe(b, kind)
